@@ -274,5 +274,7 @@ def _get_action_form_arguments(left, right):
 
     if isinstance(left, BaseForm):
         coefficients += left.coefficients()
+    elif isinstance(left, BaseCoefficient):
+        coefficients += (left,)
 
     return arguments, coefficients
